@@ -1,0 +1,220 @@
+//go:build verif
+
+// Contracts for package resolver, read by the verification-condition generator in /verif/govc.
+// This file contains comments only; it is compiled only with -tags verif and adds no code.
+
+package resolver
+
+/*@
+// ---------------------------------------------------------------------------------------------
+// The statement of C01, unfolded one level: for the recipe book B0 as it is when Resolve is entered
+// (ghost constants: key set B0dom, original ingredient list B0[n] of length B0len[n]),
+//   V(n, x)      = the amount of basic element x in one unit of n
+//                = [n == x]                          if the book does not define n (names stand for themselves)
+//                = Dot(B0[n], B0len[n], x)           otherwise
+//   Dot(l, k, x) = sum over the first k ingredients of l of  quantity * V(ingredient, x)
+// i.e. the sum over all ingredient paths of the product of the quantities along the path.
+// V is well defined for acyclic books: WFB says that the ranking function rank witnesses acyclicity
+// (every ingredient of a recipe ranks strictly below it); the equations are only used under WFB.
+// ---------------------------------------------------------------------------------------------
+const B0dom set[string]
+const B0    fmap[string]seq[Element]
+const B0len fmap[string]int
+const WFB   bool
+fun rank(n string) int
+
+fun Dot(l seq[Element], k int, x string) float64 opaque :=
+  if k <= 0 then 0.0 else Dot(l, k - 1, x) + l[k-1].Value * V(l[k-1].Name, x)
+fun V(n string, x string) float64 opaque :=
+  if !WFB then 0.0 else (if n in B0dom then Dot(B0[n], B0len[n], x) else (if n == x then 1.0 else 0.0))
+
+pred Acyclic() := WFB && (forall n string :: {rank(n)} rank(n) >= 0)
+
+// names of a list, by membership: all outside the book / all ranked below r
+pred AllLeaf(l seq[Element], k int) := forall x string :: {SpecHas(l, k, x)} SpecHas(l, k, x) ==> !(x in B0dom)
+pred RankBelow(l seq[Element], k int, r int) := forall x string :: {SpecHas(l, k, x)} SpecHas(l, k, x) ==> rank(x) < r
+
+// a list whose names are all outside the book is its own expansion
+lemma LeafDot(l seq[Element], k int, x string)
+  requires WFB && AllLeaf(l, k)
+  ensures Dot(l, k, x) == SpecAmt(l, k, x)
+  induction k { unfold Dot(l, k, x); unfold SpecAmt(l, k, x); unfold V(l[k-1].Name, x); unfold forall y string :: SpecHas(l, k, y) }
+lemma LeafDotAll(l seq[Element], k int)
+  requires WFB && AllLeaf(l, k)
+  ensures forall x string :: {Dot(l, k, x)} {SpecAmt(l, k, x)} Dot(l, k, x) == SpecAmt(l, k, x)
+  { use forall x string :: LeafDot(l, k, x) }
+
+// ---------------------------------------------------------------------------------------------
+// State invariant of a resolution in progress
+// ---------------------------------------------------------------------------------------------
+pred WfDBI(db DBNodeMap) :=
+     db != nil
+  && (forall k string :: {db[k]} k in db ==> db[k] != nil && allocated(db[k]) && arr(db[k].Elements) < alloc())
+  && (forall k1, k2 string :: {db[k1], db[k2]} k1 in db && k2 in db && k1 != k2 ==> db[k1] != db[k2])
+
+pred Inv(db DBNodeMap) :=
+     WfDBI(db)
+  && (forall k string :: {db[k]} (k in db) == (k in B0dom))
+  // every list, resolved or not, still denotes the same amounts as the original recipe
+  && (forall k string, x string :: {Dot(elems(db[k].Elements), len(db[k].Elements), x)} k in db ==> Dot(elems(db[k].Elements), len(db[k].Elements), x) == V(k, x))
+  && (forall k string :: {db[k]} k in db ==> RankBelow(elems(db[k].Elements), len(db[k].Elements), rank(k)))
+
+// a resolved recipe: no recipe name left, strictly sorted by name (hence no duplicates)
+pred Res(db DBNodeMap, k string) := AllLeaf(elems(db[k].Elements), len(db[k].Elements)) && SortedStrict(elems(db[k].Elements), len(db[k].Elements))
+
+func resolveNode returns (err)
+  props C01 C11 C05
+  requires @acyclic Acyclic() && Inv(db) && 0 <= level && level + rank(name) < maxDepth
+  decreases maxDepth - level
+  modifies heap(DBNode)
+  ensures @succeeds [C01 C11] err == nil
+  ensures @inv Inv(db)
+  ensures @resolved [C01] name in db ==> Res(db, name)
+  ensures @monotone forall k string :: {db[k]} k in db && old(Res(db, k)) ==> Res(db, k)
+  // existing arrays are never written: a resolved list is always built in a fresh array
+  ensures @arrays forall a int :: {arrayat(Element, a)} a < old(alloc()) ==> arrayat(Element, a) == old(arrayat(Element, a))
+  ensures @fresh-or-same forall k string :: {db[k]} k in db ==> arr(db[k].Elements) == old(arr(db[k].Elements)) || fresh(arr(db[k].Elements))
+  loop 1 {
+    pre { unfold forall x string :: Dot(elems(#coll), 0, x); unfold forall x string :: SpecAmt(elems(nel), 0, x); unfold forall x string :: SpecHas(elems(nel), 0, x); unfold Distinct(elems(nel), len(nel)) }
+    invariant @params db == old(db) && name == old(name) && maxDepth == old(maxDepth) && level == old(level) && node == db[name] && name in db
+    invariant @inv Inv(db)
+    invariant @arrays forall a int :: {arrayat(Element, a)} a < old(alloc()) ==> arrayat(Element, a) == old(arrayat(Element, a))
+    invariant @fresh-or-same forall k string :: {db[k]} k in db ==> arr(db[k].Elements) == old(arr(db[k].Elements)) || fresh(arr(db[k].Elements))
+    invariant @monotone forall k string :: {db[k]} k in db && old(Res(db, k)) ==> Res(db, k)
+    // the list being iterated is the node's list at loop entry; it denotes V(name, .) and ranks below name
+    invariant @cur arr(#coll) < old(alloc()) && (forall x string :: {Dot(elems(#coll), len(#coll), x)} Dot(elems(#coll), len(#coll), x) == V(name, x)) && RankBelow(elems(#coll), len(#coll), rank(name))
+    // the new list: fresh array, distinct leaf names ranked below name, amounts = the expansion of the prefix
+    invariant @nel-own arr(nel) >= old(alloc()) && arr(nel) < alloc() && arr(nel) != 0 && (forall k string :: {db[k]} k in db ==> arr(db[k].Elements) != arr(nel))
+    invariant @nel-shape Distinct(elems(nel), len(nel)) && AllLeaf(elems(nel), len(nel)) && RankBelow(elems(nel), len(nel), rank(name))
+    invariant @nel-amounts forall x string :: {SpecAmt(elems(nel), len(nel), x)} SpecAmt(elems(nel), len(nel), x) == Dot(elems(#coll), #i, x)
+  }
+  ghost before call 1 resolveNode {
+    let i1 := #i + 1
+    use HasAt(elems(#coll), len(#coll), #i)
+    unfold forall x string :: Dot(elems(#coll), i1, x)
+    unfold forall x string :: V(e.Name, x)
+  }
+  // recipe ingredient: merge its (resolved, hence leaf-only) list scaled by the quantity
+  ghost before call 1 SumMerge {
+    use LeafDotAll(elems(foundNode.Elements), len(foundNode.Elements))
+    use forall x string :: SAmtScale(elems(foundNode.Elements), e.Value, len(foundNode.Elements), x)
+  }
+  // basic ingredient: it stands for itself
+  ghost before call 2 SumMerge {
+    unfold forall x string :: SpecSAmt(elems(tm), 1.0, 1, x); unfold forall x string :: SpecSAmt(elems(tm), 1.0, 0, x)
+    unfold forall x string :: SpecHas(elems(tm), 1, x); unfold forall x string :: SpecHas(elems(tm), 0, x)
+  }
+  ghost after call 1 SumMerge { assert @lists-kept-recipe forall k string :: {db[k]} k in db ==> elems(db[k].Elements) == at(call, elems(db[k].Elements)); assert @inv-kept-recipe Inv(db) }
+  ghost after call 2 SumMerge { assert @lists-kept-basic forall k string :: {db[k]} k in db ==> elems(db[k].Elements) == at(call, elems(db[k].Elements)); assert @inv-kept-basic Inv(db) }
+  ghost before call 1 Sort { let unsorted := elems(nel) }
+  ghost after call 1 Sort {
+    use PermAmtAll(unsorted, elems(nel), len(nel))
+    use LeafDotAll(elems(nel), len(nel))
+    use SortedDistinctStrict(elems(nel), len(nel))
+    assert @strict SortedStrict(elems(nel), len(nel))
+    assert @leaf AllLeaf(elems(nel), len(nel)) && RankBelow(elems(nel), len(nel), rank(name))
+    assert @denotes forall x string :: {Dot(elems(nel), len(nel), x)} Dot(elems(nel), len(nel), x) == V(name, x)
+  }
+
+// ---------------------------------------------------------------------------------------------
+// Resolve (C01): for an acyclic book nested less deeply than the depth limit, every recipe ends up with
+// exactly the amounts V(k, .), only basic names, strictly sorted - whatever order the map is visited in
+// (the visiting order #ord is an arbitrary enumeration of the keys, universally quantified).
+// ---------------------------------------------------------------------------------------------
+pred Snapshot(db DBNodeMap) :=
+     (forall k string :: {db[k]} (k in db) == (k in B0dom))
+  && (forall k string :: {db[k]} k in db ==> B0[k] == elems(db[k].Elements) && B0len[k] == len(db[k].Elements))
+pred NestedBelow(db DBNodeMap, depth int) :=
+  forall k string :: {db[k]} k in db ==> RankBelow(elems(db[k].Elements), len(db[k].Elements), rank(k)) && rank(k) < depth
+
+func Resolve returns (out, err)
+  props C01 C11 C05
+  requires @acyclic-book Acyclic() && WfDBI(db) && Snapshot(db) && NestedBelow(db, c.MaxDepth)
+  requires @leaves-rank-low forall n string :: {rank(n)} !(n in B0dom) ==> rank(n) == 0
+  modifies heap(DBNode)
+  ensures @succeeds [C01 C11] err == nil && out == db
+  ensures @resolved [C01] forall k string :: {db[k]} k in db ==> Res(db, k)
+  ensures @sum-of-products [C01] forall k string, x string :: {SpecAmt(elems(db[k].Elements), len(db[k].Elements), x)} k in db ==> SpecAmt(elems(db[k].Elements), len(db[k].Elements), x) == V(k, x)
+  ensures @same-recipes [C01] mapval(db) == old(mapval(db))
+  ghost at entry { unfold forall k string, x string :: V(k, x) }
+  loop 1 {
+    invariant @inv Inv(db) && db == old(db) && c == old(c)
+    invariant @done forall j int :: {#ord[j]} 0 <= j && j < #it ==> Res(db, #ord[j])
+  }
+  ghost before return 1 { use forall k string, x string :: LeafDot(elems(db[k].Elements), len(db[k].Elements), x) }
+
+// ---------------------------------------------------------------------------------------------
+// The deprecated struct API is a second copy of the same code: it carries the same contracts
+// (a repair applied to one copy only is caught on the other).
+// ---------------------------------------------------------------------------------------------
+func (Resolver).resolveNode returns (err)
+  props C01 C11 C05
+  requires @acyclic Acyclic() && Inv(r.db) && 0 <= level && level + rank(name) < r.config.MaxDepth
+  decreases r.config.MaxDepth - level
+  modifies heap(DBNode)
+  ensures @succeeds [C01 C11] err == nil
+  ensures @inv Inv(r.db)
+  ensures @resolved [C01] name in r.db ==> Res(r.db, name)
+  ensures @monotone forall k string :: {r.db[k]} k in r.db && old(Res(r.db, k)) ==> Res(r.db, k)
+  // existing arrays are never written: a resolved list is always built in a fresh array
+  ensures @arrays forall a int :: {arrayat(Element, a)} a < old(alloc()) ==> arrayat(Element, a) == old(arrayat(Element, a))
+  ensures @fresh-or-same forall k string :: {r.db[k]} k in r.db ==> arr(r.db[k].Elements) == old(arr(r.db[k].Elements)) || fresh(arr(r.db[k].Elements))
+  loop 1 {
+    pre { unfold forall x string :: Dot(elems(#coll), 0, x); unfold forall x string :: SpecAmt(elems(nel), 0, x); unfold forall x string :: SpecHas(elems(nel), 0, x); unfold Distinct(elems(nel), len(nel)) }
+    invariant @params r == old(r) && name == old(name) && level == old(level) && node == r.db[name] && name in r.db
+    invariant @inv Inv(r.db)
+    invariant @arrays forall a int :: {arrayat(Element, a)} a < old(alloc()) ==> arrayat(Element, a) == old(arrayat(Element, a))
+    invariant @fresh-or-same forall k string :: {r.db[k]} k in r.db ==> arr(r.db[k].Elements) == old(arr(r.db[k].Elements)) || fresh(arr(r.db[k].Elements))
+    invariant @monotone forall k string :: {r.db[k]} k in r.db && old(Res(r.db, k)) ==> Res(r.db, k)
+    // the list being iterated is the node's list at loop entry; it denotes V(name, .) and ranks below name
+    invariant @cur arr(#coll) < old(alloc()) && (forall x string :: {Dot(elems(#coll), len(#coll), x)} Dot(elems(#coll), len(#coll), x) == V(name, x)) && RankBelow(elems(#coll), len(#coll), rank(name))
+    // the new list: fresh array, distinct leaf names ranked below name, amounts = the expansion of the prefix
+    invariant @nel-own arr(nel) >= old(alloc()) && arr(nel) < alloc() && arr(nel) != 0 && (forall k string :: {r.db[k]} k in r.db ==> arr(r.db[k].Elements) != arr(nel))
+    invariant @nel-shape Distinct(elems(nel), len(nel)) && AllLeaf(elems(nel), len(nel)) && RankBelow(elems(nel), len(nel), rank(name))
+    invariant @nel-amounts forall x string :: {SpecAmt(elems(nel), len(nel), x)} SpecAmt(elems(nel), len(nel), x) == Dot(elems(#coll), #i, x)
+  }
+  ghost before call 1 resolveNode {
+    let i1 := #i + 1
+    use HasAt(elems(#coll), len(#coll), #i)
+    unfold forall x string :: Dot(elems(#coll), i1, x)
+    unfold forall x string :: V(e.Name, x)
+  }
+  // recipe ingredient: merge its (resolved, hence leaf-only) list scaled by the quantity
+  ghost before call 1 SumMerge {
+    use LeafDotAll(elems(foundNode.Elements), len(foundNode.Elements))
+    use forall x string :: SAmtScale(elems(foundNode.Elements), e.Value, len(foundNode.Elements), x)
+  }
+  // basic ingredient: it stands for itself
+  ghost before call 2 SumMerge {
+    unfold forall x string :: SpecSAmt(elems(tm), 1.0, 1, x); unfold forall x string :: SpecSAmt(elems(tm), 1.0, 0, x)
+    unfold forall x string :: SpecHas(elems(tm), 1, x); unfold forall x string :: SpecHas(elems(tm), 0, x)
+  }
+  ghost after call 1 SumMerge { assert @lists-kept-recipe forall k string :: {r.db[k]} k in r.db ==> elems(r.db[k].Elements) == at(call, elems(r.db[k].Elements)); assert @inv-kept-recipe Inv(r.db) }
+  ghost after call 2 SumMerge { assert @lists-kept-basic forall k string :: {r.db[k]} k in r.db ==> elems(r.db[k].Elements) == at(call, elems(r.db[k].Elements)); assert @inv-kept-basic Inv(r.db) }
+  ghost before call 1 Sort { let unsorted := elems(nel) }
+  ghost after call 1 Sort {
+    use PermAmtAll(unsorted, elems(nel), len(nel))
+    use LeafDotAll(elems(nel), len(nel))
+    use SortedDistinctStrict(elems(nel), len(nel))
+    assert @strict SortedStrict(elems(nel), len(nel))
+    assert @leaf AllLeaf(elems(nel), len(nel)) && RankBelow(elems(nel), len(nel), rank(name))
+    assert @denotes forall x string :: {Dot(elems(nel), len(nel), x)} Dot(elems(nel), len(nel), x) == V(name, x)
+  }
+
+
+func (Resolver).Resolve returns (err)
+  props C01 C11 C05
+  requires @acyclic-book Acyclic() && WfDBI(r.db) && Snapshot(r.db) && NestedBelow(r.db, r.config.MaxDepth)
+  requires @leaves-rank-low forall n string :: {rank(n)} !(n in B0dom) ==> rank(n) == 0
+  modifies heap(DBNode)
+  ensures @succeeds [C01 C11] err == nil
+  ensures @resolved [C01] forall k string :: {r.db[k]} k in r.db ==> Res(r.db, k)
+  ensures @sum-of-products [C01] forall k string, x string :: {SpecAmt(elems(r.db[k].Elements), len(r.db[k].Elements), x)} k in r.db ==> SpecAmt(elems(r.db[k].Elements), len(r.db[k].Elements), x) == V(k, x)
+  ensures @same-recipes [C01] mapval(r.db) == old(mapval(r.db))
+  ghost at entry { unfold forall k string, x string :: V(k, x) }
+  loop 1 {
+    invariant @inv Inv(r.db) && r == old(r)
+    invariant @done forall j int :: {#ord[j]} 0 <= j && j < #it ==> Res(r.db, #ord[j])
+  }
+  ghost before return 1 { use forall k string, x string :: LeafDot(elems(r.db[k].Elements), len(r.db[k].Elements), x) }
+@*/
